@@ -30,7 +30,7 @@ var celAlphabet = []string{"?", ":", "&&", "||", "+", "(", ")", "[", "]", "foo",
 func runX(h *hx.H, prop string) {
 	switch prop {
 	case "C28":
-		h.Rule = "inputs: every byte string <=2 over 256 values and <=4 over a structural alphabet, every token string <=4 over a 30-token Protobuf alphabet and <=4 over a CEL-like alphabet inside an option value, corpus single-token mutants and truncations, nesting towers (thorough: one more symbol each); oracle: no panic escapes, no diagnostic of level ICE, ok <=> no diagnostic of severity Error or worse, every annotation span within the file; non-trivial = input with >=1 error diagnostic"
+		h.Rule = "inputs: every byte string <=2 over 256 values and <=4 over a structural alphabet, every string of <=3 (thorough 4) runes over a 20-rune Unicode alphabet (non-ASCII letters, digits and marks, format characters, BOM, odd spaces and line separators, emoji, U+FFFD) bare and inside a message body, every token string <=4 over a 30-token Protobuf alphabet and <=4 over a CEL-like alphabet inside an option value, corpus single-token mutants and truncations, nesting towers (thorough: one more symbol each); oracle: no panic escapes, no diagnostic of level ICE, ok <=> no diagnostic of severity Error or worse, every annotation span within the file; non-trivial = input with >=1 error diagnostic"
 	case "C29":
 		h.Rule = "same inputs as C28; oracle: the natural tokens in stream order are contiguous from 0 to len(text), their texts concatenate to the input, and every open bracket token is fused with a close token of the matching kind that lies after it (or the lexer reported an error); non-trivial = input with a bracket or an unterminated string/comment"
 	case "C30":
@@ -56,6 +56,27 @@ func runX(h *hx.H, prop string) {
 	}
 	forEachByteString(all, nAll, func(b []byte) { run(string(b)) })
 	forEachByteString([]byte("a1 \n\t\"'\\/*;={}[]()<>.,-:\x00\x80\xff"), nAlpha, func(b []byte) { run(string(b)) })
+	// strings of runes from the corners of Unicode that lexers treat specially (letters, digits and
+	// marks outside ASCII, format characters, the BOM in the middle, odd spaces and line breaks)
+	runeAlpha := []string{"a", "1", "_", " ", "\n", "é", "\u200d", "\u00ad", "\ufeff", "\u0301", "\u2028", "\u00a0", "😀", "\u0660", "\"", "/", ".", "\ufffd", ";", "="}
+	nRune := 3
+	if h.Thorough() {
+		nRune = 4
+	}
+	var recR func(t string, n int)
+	recR = func(t string, n int) {
+		run(t)
+		if n > 0 {
+			run("message M { " + t + " }")
+		}
+		if n == nRune {
+			return
+		}
+		for _, r := range runeAlpha {
+			recR(t+r, n+1)
+		}
+	}
+	recR("", 0)
 	forEachTokenString(tokenAlphabet, nTok, " ", func(s string) {
 		run(s)
 		if prop == "C30" {
@@ -326,9 +347,16 @@ func checkPrint(h *hx.H, fail func(string, string, ...any), file *ast.File, src 
 		return
 	}
 	rest := src[len(parts):]
-	if strings.TrimSpace(stripComments(rest)) != "" {
-		fail("print-decls", "concatenated Print(decl) stops before non-trivia text %q", truncate([]byte(rest)))
-		return
+	// what is left must be trivia only: every token that starts there is a space or a comment
+	// (the lexer, not this check, says what counts as a blank - e.g. a byte-order mark)
+	for tok := range file.Stream().All() {
+		if tok.IsSynthetic() {
+			continue
+		}
+		if sp := tok.LeafSpan(); sp.Start >= len(parts) && !tok.Kind().IsSkippable() {
+			fail("print-decls", "concatenated Print(decl) stops before non-trivia text %q", truncate([]byte(rest)))
+			return
+		}
 	}
 	if h.WantSample() && strings.Contains(src, "/*") && len(src) < 200 {
 		h.Sample(map[string]any{"case": hx.CaseID(idx), "source": src})
